@@ -35,6 +35,18 @@ class Tap:
             yield obs_idx
 
 
+def allowed_with_ties(srt, W):
+    """Upper bound on the number of expanded candidates: the W most probable plus ties with the W-th, where values that differ only
+    by rounding (1e-9 relative, chained) count as ties. (Exactly equal values MUST be expanded together: see the *.tie clauses.)"""
+    if W is None or len(srt) <= W:
+        return len(srt)
+    k, last = W, srt[W - 1]
+    while k < len(srt) and abs(srt[k] - last) <= 1e-12 + 1e-9 * abs(last):
+        last = srt[k]
+        k += 1
+    return k
+
+
 def check_snapshot(snap):
     i, now, W, col = snap
     if not col:
@@ -51,11 +63,7 @@ def check_snapshot(snap):
         raise Violation("snapshot.tie", f"column {i} (width {W}, round {now}): candidate {tie[0]} is postponed although it is exactly as "
                                         f"probable ({tie[1]}) as an expanded one (exact ties must be expanded together)")
     srt = sorted((c[1] for c in col), reverse=True)
-    if W is not None and len(col) > W:
-        thr = srt[W - 1]
-        allowed = sum(1 for v in srt if v >= thr)
-    else:
-        allowed = len(col)
+    allowed = allowed_with_ties(srt, W)
     if len(live) > allowed:
         raise Violation("snapshot.too-many", f"column {i} (width {W}, round {now}): {len(live)} candidates expanded, at most {allowed} allowed")
     need = len(col) if W is None else min(len(col), W)
@@ -92,7 +100,7 @@ def check_layers(matcher, what):
                                                  f"(exact ties must be treated alike, otherwise the result depends on listing order)")
             if W is not None and len(ents) > W:
                 srt = sorted((m.logprob for m in ents), reverse=True)
-                allowed = sum(1 for v in srt if v >= srt[W - 1])
+                allowed = allowed_with_ties(srt, W)
                 if len(live) > allowed:
                     raise Violation("layer.too-many", f"{what}: column {i} depth {depth}: {len(live)} candidates expanded, at most {allowed} "
                                                       f"(width {W} plus ties) allowed")
